@@ -2,6 +2,7 @@
    the tree AFTER fixes/C12-container-pointernum.diff, fixes/C12-nil-in-pointer-chain.diff and
    fixes/C12-empty-registry-key.diff. -/
 import EinoV.Model.C12
+import EinoV.Model.C12Reg
 namespace EinoV.Expected.C12
 open EinoV.C12
 
@@ -27,6 +28,20 @@ def composeRegistry : List (String × String) :=
 def registerForwards : Bool := true
 def registerRejectsDuplicates : Bool := true
 def registerRejectsEmptyKey : Bool := true
+
+/-- the guards of `GenericRegister` in source order, each refusing unconditionally -/
+def registerGuards : List String := ["emptyKey", "keyTaken", "typeTaken"]
+def registerStoresBoth : Bool := true
+def registerStripsPointers : Bool := true
+
+/-- the registry state machine's fact record built from the guard list -/
+def regFactsOf (guards : List String) : RegFacts :=
+  { rejectsEmptyKey := guards.contains "emptyKey"
+    rejectsTakenKey := guards.contains "keyTaken"
+    rejectsTakenType := guards.contains "typeTaken" }
+
+/-- what the oracle runs the registry state machine with -/
+def regFacts : RegFacts := regFactsOf registerGuards
 
 /-- the order `dec` tests the discriminating fields in (the rest is the slice branch) -/
 def decodeDispatch : List String := ["Type", "StructType", "MapKeyType"]
